@@ -2,15 +2,21 @@
 
 Implementation side: generated handler sets on the real EventManager of a real machine: sync handlers, waiting handlers
 (queue.wait() and a later queue.clear() from a DelayManager timer at adversarial, pairwise distinct deadlines), coroutine
-handlers (add_async_handler, sleeping or returning at once), handlers that post further queue events (optionally
-handing their own wait cell on, the Mode.start/use_wait_queue pattern, cleared by the inner event's callback), handlers
-removed between dispatch and task start; real modes with use_wait_queue started by a queue event (corpus).
-Scheduler choices are never guessed: the harness logs which task step / drain / clear actually happened in which order
-(instrumenting handlers, QueuedEvent.clear, _async_handler_coroutine and process_event_queue from this process) and feeds
-that schedule to the Lean driver, which answers not-enabled when the model says that step could not run then.
+handlers (add_async_handler: sleeping or returning at once, awaiting a future that a timer resolves or cancels, raising
+CancelledError, task cancelled by a timer / another handler / a plain event), handlers that post further queue events
+(optionally handing their own wait cell on, the Mode.start/use_wait_queue pattern, cleared by the inner event's callback),
+posted kwargs / handler kwargs / conditions, post_queue_async futures, wait_for_event / wait_for_any_event futures and their
+cancellation, EventManager.stop() in flight, handlers removed between dispatch and task start; real modes with
+use_wait_queue started by a queue event (corpus); the real queue_relay_player / queue_event_player; post_relay_async /
+post_async futures.
+Scheduler choices are never guessed: the harness logs which task step / drain / clear / coroutine end actually happened in
+which order (instrumenting handlers, QueuedEvent.clear, _async_handler_coroutine, _async_handler_done, _set_result,
+_wait_handler, _remove_wait_handlers and process_event_queue from this process) and feeds that schedule to the Lean driver,
+which answers not-enabled when the model says that step could not run then.
 Relay and boolean events: C01's generator restricted to those types, real post_relay/post_boolean vs. the event-bus model.
 Oracle (model independent): every posted queue event's callback exactly once at quiescence, handlers of one event in
-registry order, no handler of an event starts between an earlier handler's wait and its clear, no task left.
+registry order (those whose condition holds), no handler of an event starts between an earlier handler's wait and its
+clear, no task left; what the property does not state (events_when_finished counts, behaviour after stop()) is counted only.
 """
 import asyncio
 
@@ -24,26 +30,38 @@ LEAN_MODULES = ["MpfVerif.Props.C02"]
 PROPS_FILE = "MpfVerif/Props/C02.lean"
 GEN = []
 MANIFEST = {
-  "text": "Proof on a Lean model of queue-event dispatch (QueuedEvent cells addressed by id, dispatch tasks with snapshot / fresh cell per handler / 'if queue.waiter: queue.event = Event(); await' / completion callback, the fast path without handlers, the early return when all handlers were removed, add_async_handler's wait..clear, clear setting the cell's current event) with every scheduler choice an input: for ALL handler programs and ALL schedules a task step calls handlers of its snapshot in order and stops at the first one that leaves its wait registered, a sleeping task cannot be resumed until exactly that wait is cleared and is resumable as soon as it is, a finished task never runs again and logs its callback exactly once when it finishes; relay events fold the handlers' returned dicts left to right with every handler seeing the fold so far, boolean events stop at the first False and report ev_result=False (event-bus model of _run_handlers). Both models are tied to mpf/core/events.py on every check: generated handler sets run on the real EventManager, the observed schedule is replayed on the Lean driver (not-enabled = disagreement) and the observations compared; an independent oracle checks callback-exactly-once, order and no-overlap on the implementation trace, including real use_wait_queue modes started by a queue event.",
-  "note": "Trusted: Lean kernel + {propext, Classical.choice, Quot.sound}; the hand-written models Model/QueueEvent.lean and Model/EventBus.lean (validated only by the differential runs); asyncio task/timer scheduling is an input, not modelled; exactly-once on fair schedules is stated as: every cleared wait re-enables its task and every step shortens the remaining handler list (no global liveness theorem). Not modelled: kwargs/conditions of queue-event handlers, exceptions in handlers, EventManager.stop() cancelling tasks, re-locking a cell after clear.",
-  "technique": "Lean 4 theorems over explicit schedules (unfolding lemmas + induction over handler lists) on hand models + schedule-replaying differential correspondence with the real EventManager + independent trace oracle",
+  "text": "Proof on a Lean model of queue-event dispatch (QueuedEvent cells addressed by id, dispatch tasks with snapshot / fresh cell per handler / kwargs merge with handler kwargs winning / 'k==v' conditions on the merged kwargs / 'if queue.waiter: queue.event = Event(); await' / completion callback with the posted kwargs, the fast path without handlers, the early return when all handlers were removed, add_async_handler's wait and _async_handler_done for a coroutine that returned, was cancelled or raised, clear setting the cell's current event, EventManager.stop() cancelling the existing tasks and refusing later posts, the handlers and the future of wait_for_event / wait_for_any_event incl. cancellation) with every scheduler choice an input: for ALL handler programs and ALL schedules a task step calls the handlers of its snapshot whose condition holds, in order, and stops at the first one that leaves its wait registered, a sleeping task cannot be resumed until exactly that wait is cleared and is resumable as soon as it is - also when the coroutine handler holding it ends cancelled -, a finished or stop()-cancelled task never runs again and a task logs its callback exactly once when it finishes; relay events fold the handlers' returned dicts left to right with every handler seeing the fold so far, boolean events stop at the first False and report ev_result=False (event-bus model of _run_handlers). Both models are tied to mpf/core/events.py on every check: generated handler sets run on the real EventManager (post_queue and post_queue_async, coroutine handlers that return / await a future that is resolved or cancelled / raise CancelledError / have their task cancelled by a timer, another handler or a plain event, wait futures, stop()), the observed schedule is replayed on the Lean driver (not-enabled = disagreement) and the observations incl. the kwargs every handler and callback received are compared; an independent oracle checks callback-exactly-once (for post_queue_async: the future resolved once with the kwargs as posted), order and no-overlap on the implementation trace, also on real use_wait_queue modes started by a queue event, on the REAL queue_relay_player / queue_event_player (machine level and in a mode: held until wait_for arrives, same event twice, mode stopping meanwhile, player chains, mode start posted as queue event) and on post_relay_async / post_async futures (handlers returning dict / None / non-dict, removed meanwhile).",
+  "note": "Trusted: Lean kernel + {propext, Classical.choice, Quot.sound}; the hand-written models Model/QueueEvent.lean and Model/EventBus.lean (validated only by the differential runs, no translator tie: _run_handlers_sequential is an async for-loop outside the translators' subset); asyncio task/timer scheduling is an input, not modelled; exactly-once on fair schedules is stated as: every cleared wait re-enables its task and every step shortens the remaining handler list (no global liveness theorem, no global no-duplicate-callback theorem over op sequences). Not modelled: exceptions other than CancelledError in handlers, stop() called from inside a queue-event handler, blocking_facility, re-locking a cell after clear; queue players and post_relay_async/post_async futures are oracle-only (no Lean model of the config players).",
+  "technique": "Lean 4 theorems over explicit schedules (unfolding lemmas + induction over handler lists) on hand models + schedule-replaying differential correspondence with the real EventManager + independent trace oracles on generated programs and on real config players",
   "translated": False,
  }
-RULE = ("queue cases: 1-4 events with 0-4 handlers each (sync / wait+clear later / wait+clear at once / coroutine / posts an "
+RULE = ("queue cases: 1-4 events with 0-4 handlers each (sync / wait+clear later / wait+clear at once / coroutine that sleeps and "
+        "returns, awaits a future a timer resolves or cancels, raises CancelledError, or has its task cancelled by a timer / posts an "
         "inner queue event, optionally passing its cell on and waiting for the inner callback to clear it / removes a "
-        "handler; 30% of the sync handlers call replace_handler / remove_handler / remove_handler_by_event on their own "
-        "event during its dispatch, aimed at themselves, a peer or an absent callback), priorities -2..2 with ties, 1-3 stimuli of 1-3 queue posts each, optionally followed in the same drain "
-        "by removals (handlers gone before the task starts); clear deadlines pairwise distinct on the 1/8 s grid. "
+        "handler / cancels a coroutine handler's task; 30% of the sync handlers call replace_handler / remove_handler / "
+        "remove_handler_by_event on their own event during its dispatch), priorities -2..2 with ties, in half of the cases posted "
+        "kwargs, handler kwargs colliding with them and 'k==v' conditions; 30% of the cases with 1-2 wait_for_event / "
+        "wait_for_any_event futures over the queue events, cancelled at generated points; 1-3 stimuli of 1-3 queue posts each (25% "
+        "post_queue_async), optionally followed in the same drain by removals / task cancels / future cancels from a plain event's "
+        "handler; 10% of the cases call EventManager.stop() at a generated point; clear deadlines pairwise distinct on the 1/8 s grid. "
         "non-trivial = a wait was outstanding across a scheduler step, a queue event was posted from a handler or "
-        "callback, or handlers were removed before a task started. relay/boolean cases: C01's generator with only "
-        "boolean and relay posts; non-trivial as in C01. distinct = canonical JSON of the case")
+        "callback, or handlers were removed before a task started. player cases: 3-10 ops over two queue_relay_players and a "
+        "queue_event_player in a mode and at machine level (queue posts, wait_for posts, triggers, mode start (plain or as queue "
+        "event) / stop), use_wait_queue and pass_args generated; non-trivial = a player held a queue. future cases: 0-4 handlers "
+        "returning None / dict / int / False / str / list or removing a peer, post_relay_async or post_async once or twice. "
+        "relay/boolean cases: C01's generator with only boolean and relay posts; non-trivial as in C01. distinct = canonical JSON of the case")
 TRUSTED = [
-    "modelled, not verified: asyncio (which ready task / timer runs next is logged from the implementation and given to "
-    "the model as input; the model only decides enabledness); DelayManager firing the clear timers",
+    "modelled, not verified: asyncio (which ready task / timer / done-callback runs next is logged from the implementation and given to "
+    "the model as input; the model only decides enabledness); DelayManager firing the clear timers; Task.cancel() delivering "
+    "CancelledError at the await",
     "Model/QueueEvent.lean and Model/EventBus.lean are hand-written; tied to mpf/core/events.py by correspondence on every run",
+    "BoolTemplate condition evaluation is modelled as: key present and equal to the int",
 ]
-ASSUMPTIONS = ["queue-event handlers do not raise, clear each wait exactly once and do not re-lock a cell after clearing it",
-               "post_queue is always given a callback (post_queue without callback and without handlers would call None)"]
+ASSUMPTIONS = ["queue-event handlers do not raise (a coroutine handler may end with CancelledError), clear each wait exactly once and "
+               "do not re-lock a cell after clearing it",
+               "post_queue is always given a callback (post_queue without callback and without handlers would call None)",
+               "EventManager.stop() is called from outside queue-event handlers (shutdown); events in flight at stop() are exempt "
+               "from callback-exactly-once (at most once is still checked)"]
 
 CONFIG = "switches:\n  s_c02:\n    number: 1\n"
 GRID = 0.125
@@ -51,8 +69,36 @@ GRID = 0.125
 
 # ---------------------------------------------------------------------------------------------------------------------
 # generator.  handler program acts: ["W", ticks|None] wait (+ clear after ticks), ["C"] clear own now,
-# ["Q", ev, cbpid, pass] post queue event, ["R", ev, key], callback acts: ["CP"] clear the passed cell, ["Q", ...]
+# ["Q", ev, cbpid, pass, kw] post queue event (cbpid 0 = post_queue_async: the completion callback is a future),
+# ["R", ev, key], ["X", key] cancel the task(s) of coroutine handler `key`, ["WC", wid] cancel a wait future, ["STOP"]
+# EventManager.stop(); callback acts: ["CP"] clear the passed cell, ["Q", ...]
+# registration: ["A", ev, key, prio, pid, kw, cond], ["H", ev, key, prio, pid, kw] replace_handler,
+# ["WA", wid, [[ev, key], ...], wpid] wait_for_event / wait_for_any_event (its handlers are entries with program wpid)
+# coroutine programs: kind "a", "end" in ret (sleep `ticks`, return) / gset (await a future a timer resolves) / gcancel (a
+# timer cancels the awaited future) / raise (sleep, raise CancelledError) / tcancel (a timer cancels the handler's task)
 # ---------------------------------------------------------------------------------------------------------------------
+def norm_act(a):
+    """acts of replays written before kwargs/conditions existed"""
+    if a[0] == "Q" and len(a) == 4:
+        return a + [[]]
+    if a[0] == "A" and len(a) == 5:
+        return a + [[], None]
+    if a[0] == "H" and len(a) == 5:
+        return a + [[]]
+    return a
+
+
+def norm_case(case):
+    if case.get("kind") != "queue":
+        return case
+    case = dict(case)
+    case["progs"] = {k: dict(v, acts=[norm_act(a) for a in v["acts"]], end=v.get("end", "ret")) for k, v in case["progs"].items()}
+    case["boot"] = [norm_act(a) for a in case["boot"]]
+    case["stimuli"] = [dict(st, posts=[norm_act(a) for a in st["posts"]], sync=[norm_act(a) for a in st["sync"]])
+                       for st in case["stimuli"]]
+    return case
+
+
 class Gen:
     def __init__(self, r):
         self.r = r
@@ -61,36 +107,51 @@ class Gen:
         self.next_pid = 1
         self.next_key = 1
         self.key_ev = {}
+        self.async_keys = []
+        self.use_kw = r.random() < 0.5
 
-    def prog(self, kind, acts, ticks=None):
+    def prog(self, kind, acts, ticks=None, end="ret"):
         pid = self.next_pid
         self.next_pid += 1
-        self.progs[str(pid)] = {"kind": kind, "acts": acts, "ticks": ticks}
+        self.progs[str(pid)] = {"kind": kind, "acts": acts, "ticks": ticks, "end": end}
         return pid
+
+    def kw(self, p=0.5):
+        r = self.r
+        if not self.use_kw or r.random() > p:
+            return []
+        ks = r.sample([1, 2, 3], r.choice([1, 1, 2]))
+        return [[k, r.randint(0, 2)] for k in ks]
 
     def cb_prog(self, level, passed):
         r = self.r
         acts = [["CP"]] if passed else []
         if level < self.nev and r.random() < 0.2:
-            acts.append(["Q", r.randint(level + 1, self.nev), self.cb_prog(self.nev, False), 0])
+            acts.append(["Q", r.randint(level + 1, self.nev), self.cb_prog(self.nev, False), 0, self.kw()])
         return self.prog("s", acts)
+
+    def cb_or_future(self, level):
+        return 0 if self.r.random() < 0.25 else self.cb_prog(level, False)
 
     def handler_prog(self, ev):
         r = self.r
         x = r.random()
-        if x < 0.25:
+        if x < 0.22:
             return self.prog("s", [])
-        if x < 0.5:
+        if x < 0.45:
             return self.prog("s", [["W", r.randint(1, 12)]])
-        if x < 0.58:
+        if x < 0.52:
             return self.prog("s", [["W", None], ["C"]])
         if x < 0.75:
-            return self.prog("a", [], ticks=r.choice([0, 0, r.randint(1, 12)]))
+            end = r.choice(["ret", "ret", "ret", "gset", "gcancel", "gcancel", "raise", "tcancel", "tcancel"])
+            ticks = r.choice([0, 0, r.randint(1, 12)]) if end in ("ret", "raise") else r.randint(1, 12)
+            return self.prog("a", [], ticks=ticks, end=end)
         if x < 0.92 and ev < self.nev:
             inner = r.randint(ev + 1, self.nev)
             if r.random() < 0.5:   # Mode.start with use_wait_queue: wait, pass the cell on, inner callback clears it
-                return self.prog("s", [["W", None], ["Q", inner, self.cb_prog(inner, True), 1]])
-            acts = [["Q", inner, self.cb_prog(inner, False), r.choice([0, 0, 1])]]
+                return self.prog("s", [["W", None], ["Q", inner, self.cb_prog(inner, True), 1, self.kw()]])
+            pw = r.choice([0, 0, 1])
+            acts = [["Q", inner, self.cb_prog(inner, False) if pw else self.cb_or_future(inner), pw, self.kw()]]
             if r.random() < 0.4:
                 acts.insert(r.choice([0, 1]), ["W", r.randint(1, 12)])
             return self.prog("s", acts)
@@ -100,10 +161,15 @@ class Gen:
         return self.prog("s", [])
 
     def handler(self, ev):
+        r = self.r
         key = self.next_key
         self.next_key += 1
         self.key_ev[key] = ev
-        return ["A", ev, key, self.r.randint(-2, 2), self.handler_prog(ev)]
+        pid = self.handler_prog(ev)
+        if self.progs[str(pid)]["kind"] == "a":
+            self.async_keys.append(key)
+        cond = [r.randint(1, 3), r.randint(0, 2)] if self.use_kw and r.random() < 0.25 else None
+        return ["A", ev, key, r.randint(-2, 2), pid, self.kw(0.3), cond]
 
     def mutator(self, ev, self_pid, peers):
         """replace_handler / remove_handler / remove_handler_by_event called from a handler while its own queue event is
@@ -118,7 +184,7 @@ class Gen:
             key = self.next_key
             self.next_key += 1
             self.key_ev[key] = ev
-            return ["H", ev, key, r.randint(-2, 2), tgt]
+            return ["H", ev, key, r.randint(-2, 2), tgt, self.kw(0.3)]
         return ["E", ev, tgt] if y < 0.8 else ["M", tgt]
 
     def case(self):
@@ -133,15 +199,40 @@ class Gen:
             if p["kind"] == "s" and r.random() < 0.3:
                 peers = [b[4] for b in boot if b[1] == a[1]]
                 p["acts"].insert(r.randint(0, len(p["acts"])), self.mutator(a[1], a[4], peers))
+            if p["kind"] == "s" and self.async_keys and r.random() < 0.15:
+                p["acts"].insert(r.randint(0, len(p["acts"])), ["X", r.choice(self.async_keys)])
+        # wait_for_event / wait_for_any_event futures on queue events
+        waits = []
+        if r.random() < 0.3:
+            for wid in range(1, r.choice([1, 1, 2]) + 1):
+                evs = r.sample(range(1, self.nev + 1), min(self.nev, r.choice([1, 1, 2])))
+                pairs = []
+                for ev in evs:
+                    pairs.append([ev, self.next_key])
+                    self.key_ev[self.next_key] = ev
+                    self.next_key += 1
+                wpid = self.prog("w", [["R", ev, k] for ev, k in pairs] + [["WR", wid]])
+                waits.append(wid)
+                boot.insert(r.randint(0, len(boot)), ["WA", wid, pairs, wpid])
         stimuli = []
-        for _ in range(r.randint(1, 3)):
-            posts = [["Q", r.randint(1, self.nev), self.cb_prog(r.choice([1, self.nev]), False), 0]
+        nst = r.randint(1, 3)
+        stop_at = r.randrange(nst) if r.random() < 0.1 else None
+        for i in range(nst):
+            posts = [["Q", r.randint(1, self.nev), self.cb_or_future(r.choice([1, self.nev])), 0, self.kw()]
                      for _ in range(r.choice([1, 1, 2, 3]))]
             sync = []
             if r.random() < 0.3 and self.key_ev:
                 for _ in range(r.choice([1, 1, 2, 4])):
                     key = r.choice(list(self.key_ev))
                     sync.append(["R", self.key_ev[key], key])
+            if self.async_keys and r.random() < 0.3:
+                (sync if r.random() < 0.7 else posts).append(["X", r.choice(self.async_keys)])
+            if waits and r.random() < 0.4:
+                tgt = sync if r.random() < 0.5 else posts
+                tgt.insert(r.randint(0, len(tgt)), ["WC", r.choice(waits)])
+            if stop_at == i:
+                tgt = sync if r.random() < 0.6 else posts
+                tgt.insert(r.randint(0, len(tgt)), ["STOP"])
             stimuli.append({"posts": posts, "sync": sync, "gap": r.choice([0, 1, 3, 20])})
         return {"kind": "queue", "progs": self.progs, "boot": boot, "stimuli": stimuli}
 
@@ -149,6 +240,15 @@ class Gen:
 # ---------------------------------------------------------------------------------------------------------------------
 # the real thing
 # ---------------------------------------------------------------------------------------------------------------------
+def kname(k):
+    return "k%d" % k
+
+
+def kwitems(kwargs):
+    """the generated kwargs a handler / callback / future received, in the order of the dict"""
+    return [[int(k[1:]), v] for k, v in kwargs.items() if k[0] == "k" and k[1:].isdigit()]
+
+
 class QHandler:
     """sync handler of a queue event; equal by callback identity (program id) like bound methods are"""
 
@@ -156,7 +256,7 @@ class QHandler:
         self.real, self.key, self.pid = real, key, pid
 
     def __call__(self, queue, sn, evn, **kwargs):
-        return self.real.call_handler(self.key, self.pid, queue, sn, evn)
+        return self.real.call_handler(self.key, self.pid, queue, sn, evn, kwargs)
 
     def __eq__(self, other):
         return isinstance(other, QHandler) and other.pid == self.pid
@@ -181,6 +281,15 @@ class Real:
         self.depth = 0
         self.deadlines = set()
         self.nested = False
+        self.in_adone = 0
+        self.coro_tasks = {}     # handler key -> tasks of its coroutine
+        self.futures = {}        # sn -> post_queue_async future
+        self.wfut = {}           # wid -> wait future
+        self.wfut_id = {}        # id(future) -> wid
+        self.wkeys = {}          # (wid, ev) -> handler key
+        self.wpairs = {}         # wid -> [[ev, key], ...]
+        self.stopped = False
+        self.loop_errors = []
 
     def cellno(self, q):
         for i, c in enumerate(self.cells):
@@ -197,43 +306,85 @@ class Real:
         self.deadlines.add(t)
         return t * GRID - self.vm.now()
 
+    def timer(self, ticks, fn):
+        self.vm.machine.delay.add(ms=self.deadline(ticks) * 1000, callback=fn)
+
     def run_acts(self, acts, own=None, passed=None):
         for a in acts:
             if a[0] == "W":
                 own.wait()
                 if a[1] is not None:
-                    self.vm.machine.delay.add(ms=self.deadline(a[1]) * 1000, callback=own.clear)
+                    self.timer(a[1], own.clear)
             elif a[0] == "C":
                 own.clear()
             elif a[0] == "CP":
                 passed.clear()
             elif a[0] == "Q":
-                _, ev, cb, pw = a
+                _, ev, cb, pw, pkw = a
                 sn = self.sn
                 self.sn += 1
                 kw = {"sn": sn, "evn": ev}
+                kw.update({kname(k): v for k, v in pkw})
                 if pw and own is not None:
                     kw["queue"] = own
-                self.L.append(("post", sn, ev, self.depth > 0))
-                self.ev.post_queue("qe%d" % ev, self.make_cb(cb, sn, own if pw else None), **kw)
-            elif a[0] == "A":
-                _, ev, key, prio, pid = a
-                p = self.progs[str(pid)]
-                if p["kind"] == "a":
-                    k = self.ev.add_async_handler("qe%d" % ev, self.make_coro(key, pid), prio)
+                self.L.append(("post", sn, ev, self.depth > 0, pkw, cb == 0))
+                if cb == 0:
+                    fut = self.ev.post_queue_async("qe%d" % ev, **kw)
+                    self.futures[sn] = (fut, {k: v for k, v in kw.items()})
+                    fut.add_done_callback(lambda f, sn=sn: self.L.append(
+                        ("fut", sn, "cancelled" if f.cancelled() else dict(f.result()))))
                 else:
-                    k = self.ev.add_handler("qe%d" % ev, self.make_handler(key, pid), prio)
+                    self.ev.post_queue("qe%d" % ev, self.make_cb(cb, sn, own if pw else None), **kw)
+            elif a[0] == "A":
+                _, ev, key, prio, pid, hkw, cond = a
+                p = self.progs[str(pid)]
+                name = "qe%d" % ev + ("{%s==%d}" % (kname(cond[0]), cond[1]) if cond is not None else "")
+                kws = {kname(k): v for k, v in hkw}
+                if p["kind"] == "a":
+                    k = self.ev.add_async_handler(name, self.make_coro(key, pid), prio, **kws)
+                else:
+                    k = self.ev.add_handler(name, self.make_handler(key, pid), prio, **kws)
                 self.keys.setdefault(key, []).append(k)
-                self.L.append(("reg", "A", ev, key, prio))
+                self.L.append(("reg", "A", ev, key, prio, pid, hkw, cond))
+            elif a[0] == "WA":
+                _, wid, pairs, wpid = a
+                names = ["qe%d" % ev for ev, _ in pairs]
+                fut = self.ev.wait_for_event(names[0]) if len(names) == 1 else self.ev.wait_for_any_event(names)
+                self.wfut[wid] = fut
+                self.wfut_id[id(fut)] = wid
+                self.wpairs[wid] = pairs
+                for ev, key in pairs:
+                    self.wkeys[(wid, ev)] = key
+                    # the keys wait_for_any_event made (a program may remove_handler_by_key such an entry like any other)
+                    for rh in self.ev.registered_handlers.get("qe%d" % ev, []):
+                        if getattr(rh.callback, "keywords", {}).get("_future") is fut:
+                            from mpf.core.events import EventHandlerKey
+                            self.keys.setdefault(key, []).append(EventHandlerKey(rh.key, "qe%d" % ev))
+                    self.L.append(("reg", "A", ev, key, 1, wpid, [], None))
+                fut.add_done_callback(lambda f, wid=wid: self.L.append(("wfut", wid, "cancelled" if f.cancelled() else "result")))
+            elif a[0] == "WC":
+                self.wfut[a[1]].cancel()
+                self.L.append(("wcancel", a[1]))
+            elif a[0] == "X":
+                n = 0
+                for t in self.coro_tasks.get(a[1], []):
+                    if not t.done():
+                        t.cancel()
+                        n += 1
+                self.L.append(("xcancel", a[1], n))
+            elif a[0] == "STOP":
+                self.ev.stop()
+                self.stopped = True
+                self.L.append(("stop",))
             elif a[0] == "R":
                 for k in self.keys.get(a[2], []):
                     self.ev.remove_handler_by_key(k)
                 self.L.append(("reg", "R", a[1], a[2]))
             elif a[0] == "H":
-                _, ev, key, prio, pid = a
-                k = self.ev.replace_handler("qe%d" % ev, self.make_handler(key, pid), prio)
+                _, ev, key, prio, pid, hkw = a
+                k = self.ev.replace_handler("qe%d" % ev, self.make_handler(key, pid), prio, **{kname(k): v for k, v in hkw})
                 self.keys.setdefault(key, []).append(k)
-                self.L.append(("reg", "H", ev, key, prio, pid))
+                self.L.append(("reg", "H", ev, key, prio, pid, hkw))
             elif a[0] == "M":
                 self.ev.remove_handler(QHandler(self, None, a[1]))
                 self.L.append(("reg", "M", a[1]))
@@ -246,22 +397,38 @@ class Real:
     def make_handler(self, key, pid):
         return QHandler(self, key, pid)
 
-    def call_handler(self, key, pid, queue, sn, evn):
+    def call_handler(self, key, pid, queue, sn, evn, kwargs):
         self.depth += 1
         self.nested = self.nested or self.depth > 1
         try:
             c = self.cellno(queue)
-            self.L.append(("call", key, evn, sn, c))
+            self.L.append(("call", key, evn, sn, c, kwitems(kwargs)))
             self.run_acts(self.progs[str(pid)]["acts"], own=queue)
         finally:
             self.depth -= 1
 
     def make_coro(self, key, pid):
+        p = self.progs[str(pid)]
+
         async def coro(sn, evn, **kwargs):
             self.L.append(("coro", key, evn, sn))
-            ticks = self.progs[str(pid)]["ticks"]
-            if ticks:
-                await asyncio.sleep(self.deadline(ticks))
+            end, ticks = p.get("end", "ret"), p["ticks"]
+            if end in ("ret", "raise"):
+                if ticks:
+                    await asyncio.sleep(self.deadline(ticks))
+                if end == "raise":
+                    raise asyncio.CancelledError()
+            elif end in ("gset", "gcancel"):
+                gate = asyncio.Future()
+                self.timer(ticks, (lambda: gate.done() or gate.set_result(True)) if end == "gset" else gate.cancel)
+                await gate
+            elif end == "tcancel":
+                task = asyncio.current_task()
+                self.timer(ticks, task.cancel)
+                await asyncio.Future()
+            else:
+                raise InfraError("bad coroutine end %r" % end)
+        coro.c02_key = key
         return coro
 
     def make_cb(self, pid, sn, passed):
@@ -269,25 +436,99 @@ class Real:
             self.depth += 1
             self.nested = self.nested or self.depth > 1
             try:
-                self.L.append(("cb", pid, sn))
+                self.L.append(("cb", pid, sn, kwitems(kwargs)))
                 self.run_acts(self.progs[str(pid)]["acts"], passed=passed)
             finally:
                 self.depth -= 1
         return callback
 
+    def advance(self, dt):
+        """after EventManager.stop() the done callback of a cancelled dispatch task raises CancelledError into the loop's
+        exception handler (`_queue_task_done`: future.result()); the test loop re-raises it here: noted, not a failure"""
+        for _ in range(50):
+            t0 = self.vm.now()
+            try:
+                self.vm.advance(dt)
+                return
+            except asyncio.CancelledError:
+                if not self.stopped:
+                    raise
+                self.loop_errors.append("CancelledError")
+                dt = max(0.0, dt - (self.vm.now() - t0))
+        raise InfraError("loop keeps raising CancelledError")
+
     def run(self):
         from mpf.core import events as evmod
         EM, QE = evmod.EventManager, evmod.QueuedEvent
         o_clear, o_async, o_peq = QE.clear, EM._async_handler_coroutine, EM.process_event_queue
+        o_adone, o_setres, o_wait, o_rmwait = (EM.__dict__["_async_handler_done"], EM.__dict__["_set_result"], EM._wait_handler,
+                                               EM._remove_wait_handlers)
+        o_pqe = EM._process_queue_event
         real = self
 
         def clear(cell):
-            real.L.append(("clear" if real.depth == 0 else "iclear", real.cellno(cell)))
+            real.L.append(("dclear" if real.in_adone else ("clear" if real.depth == 0 else "iclear"), real.cellno(cell)))
             return o_clear(cell)
 
         def async_spy(em, _coroutine, queue, **kwargs):
-            real.L.append(("acall", kwargs.get("evn"), kwargs.get("sn"), real.cellno(queue)))
-            return o_async(em, _coroutine, queue, **kwargs)
+            real.L.append(("acall", kwargs.get("evn"), kwargs.get("sn"), real.cellno(queue), kwitems(kwargs)))
+            orig = asyncio.create_task
+
+            def create_task(coro, **kw):
+                t = orig(coro, **kw)
+                real.coro_tasks.setdefault(getattr(_coroutine, "c02_key", None), []).append(t)
+                return t
+            asyncio.create_task = create_task
+            try:
+                return o_async(em, _coroutine, queue, **kwargs)
+            finally:
+                asyncio.create_task = orig
+
+        def adone_spy(queue, future):
+            outcome = "cancelled" if future.cancelled() else ("raised" if future.exception() is not None else "ok")
+            real.L.append(("adone", real.cellno(queue), outcome))
+            real.in_adone += 1
+            try:
+                return o_adone.__func__(queue, future)
+            finally:
+                real.in_adone -= 1
+
+        def setres_spy(_future, **kwargs):
+            if "sn" in kwargs and real.futures.get(kwargs["sn"], (None,))[0] is _future:
+                real.L.append(("cb", 0, kwargs["sn"], kwitems(kwargs)))
+            return o_setres.__func__(_future, **kwargs)
+
+        def wait_spy(em, _future, _keys, **kwargs):
+            wid = real.wfut_id.get(id(_future))
+            if wid is None or "sn" not in kwargs:
+                return o_wait(em, _future, _keys, **kwargs)
+            evn = kwargs["evn"]
+            was_done = _future.done()
+            real.depth += 1
+            try:
+                real.L.append(("call", real.wkeys[(wid, evn)], evn, kwargs["sn"], real.cellno(kwargs["queue"]), kwitems(kwargs)))
+                r = o_wait(em, _future, _keys, **kwargs)
+                for ev, key in real.wpairs[wid]:
+                    real.L.append(("reg", "R", ev, key))
+                if _future.done() and not was_done and not _future.cancelled():
+                    real.L.append(("wres", wid, kwargs["sn"]))
+                return r
+            finally:
+                real.depth -= 1
+
+        def rmwait_spy(em, keys, future):
+            wid = real.wfut_id.get(id(future))
+            if wid is not None and future.cancelled():
+                acts = [["R", ev, key] for ev, key in real.wpairs[wid]]
+                real.L.append(("sync", acts))
+                for a in acts:
+                    real.L.append(("reg", "R", a[1], a[2]))
+            return o_rmwait(em, keys, future)
+
+        def pqe_spy(em, event, callback, **kwargs):
+            if "sn" in kwargs and event.startswith("qe"):
+                real.L.append(("qd", kwargs["sn"]))
+            return o_pqe(em, event, callback, **kwargs)
 
         def peq(em):
             busy = bool(em.event_queue or em.callback_queue)
@@ -303,6 +544,9 @@ class Real:
             self.L.append(("sync", acts))
             self.run_acts(acts)
         QE.clear, EM._async_handler_coroutine, EM.process_event_queue = clear, async_spy, peq
+        EM._async_handler_done, EM._set_result = staticmethod(adone_spy), staticmethod(setres_spy)
+        EM._wait_handler, EM._remove_wait_handlers = wait_spy, rmwait_spy
+        EM._process_queue_event = pqe_spy
         crash = None
         try:
             self.ev.add_handler("c02_sync", sync_handler)
@@ -314,9 +558,9 @@ class Real:
                 self.run_acts(st["posts"])
                 if st["sync"]:
                     self.ev.post("c02_sync", acts=st["sync"])
-                self.vm.advance(GRID * st["gap"])
+                self.advance(GRID * st["gap"])
             for _ in range(60):      # until every harness timer has fired (handlers reached later add new ones)
-                self.vm.advance(GRID * 16)
+                self.advance(GRID * 16)
                 if not self.deadlines or max(self.deadlines) * GRID + 1 < self.vm.now():
                     break
         except InfraError:
@@ -325,8 +569,19 @@ class Real:
             crash = "%s: %s" % (type(e).__name__, str(e)[:200])
         finally:
             QE.clear, EM._async_handler_coroutine, EM.process_event_queue = o_clear, o_async, o_peq
-        left = {"tasks": len(self.ev._queue_tasks), "queue": len(self.ev.event_queue) + len(self.ev.callback_queue),
-                "waits": sum(1 for c in self.cells if c.waiter)}
+            EM._async_handler_done, EM._set_result = o_adone, o_setres
+            EM._wait_handler, EM._remove_wait_handlers = o_wait, o_rmwait
+            EM._process_queue_event = o_pqe
+        left = {"tasks": sum(1 for t in self.ev._queue_tasks if not t.done()),
+                "queue": len(self.ev.event_queue) + len(self.ev.callback_queue),
+                "waits": sum(1 for c in self.cells if c.waiter),
+                "listed_tasks": len(self.ev._queue_tasks),
+                "futures_pending": sorted(sn for sn, (f, _) in self.futures.items() if not f.done()),
+                "future_results": {str(sn): (None if not f.done() or f.cancelled() else
+                                             {k: (v if not isinstance(v, evmod.QueuedEvent) else "<cell>") for k, v in f.result().items()})
+                                   for sn, (f, _) in self.futures.items()},
+                "future_posted": {str(sn): kw for sn, (_, kw) in self.futures.items()},
+                "loop_errors": self.loop_errors}
         return crash, left
 
 
@@ -348,29 +603,37 @@ def run_real(case):
 # ---------------------------------------------------------------------------------------------------------------------
 # oracle on the implementation trace
 # ---------------------------------------------------------------------------------------------------------------------
+def merged_kw(posted, hkw):
+    d = {k: v for k, v in posted}
+    d.update({k: v for k, v in hkw})
+    return d
+
+
 def oracle(case, L, crash, left, nested):
     if crash is not None:
-        return "crash", {"error": crash}
+        return "crash:" + crash.split(":")[0], {"error": crash}
     progs = case["progs"]
-    reg = {}
-    posts, calls, cbs, started = {}, {}, {}, {}
-    passed_post = set()
+    reg = {}                      # ev -> [(key, prio, pid, kw, cond)] in call order
+    posts, calls, cbs, started, postkw = {}, {}, {}, {}, {}
+    futures = set()
     key_pid = {}
-    for a in case["boot"]:
-        key_pid[a[2]] = a[4]
     waiting = {}      # sn -> cell whose wait is outstanding (registered by the last handler of that event)
     cleared = set()
+    stop_at = None
+    cancels = False
     for i, e in enumerate(L):
         if e[0] == "reg":
             if e[1] in ("A", "H"):
+                key_pid[e[3]] = e[5]
                 if e[1] == "H":
-                    key_pid[e[3]] = e[5]
-                    reg[e[2]] = [h for h in reg.get(e[2], []) if h[2] != e[5]]
+                    hkw = {k: v for k, v in e[6]}
+                    reg[e[2]] = [h for h in reg.get(e[2], [])
+                                 if not (h[2] == e[5] and (not hkw or {k: v for k, v in h[3]} == hkw))]
                 lst = reg.setdefault(e[2], [])
                 j = len(lst)
                 while j > 0 and lst[j - 1][1] < e[4]:
                     j -= 1
-                lst.insert(j, (e[3], e[4], key_pid.get(e[3])))
+                lst.insert(j, (e[3], e[4], e[5], e[6], e[7] if e[1] == "A" else None))
             elif e[1] == "M":
                 for x in list(reg):
                     reg[x] = [h for h in reg[x] if h[2] != e[2]]
@@ -379,11 +642,21 @@ def oracle(case, L, crash, left, nested):
             else:
                 reg[e[2]] = [h for h in reg.get(e[2], []) if h[0] != e[3]]
         elif e[0] == "post":
-            posts[e[1]] = e[2]
+            if stop_at is None:          # a post after stop() is refused ("Event after stop"): not a posted event
+                posts[e[1]] = e[2]
+                postkw[e[1]] = e[4]
+                if e[5]:
+                    futures.add(e[1])
+        elif e[0] == "stop":
+            stop_at = i
+        elif e[0] == "xcancel":
+            cancels = cancels or e[2] > 0
         elif e[0] in ("call", "acall", "cb"):
             sn = e[3] if e[0] == "call" else e[2]
             if sn not in started:
-                started[sn] = [h[0] for h in reg.get(posts.get(sn), [])]   # snapshot when the task starts
+                # snapshot when the task starts: the handlers whose condition holds on the merged kwargs are the ones to call
+                started[sn] = [h[0] for h in reg.get(posts.get(sn), [])
+                               if h[4] is None or merged_kw(postkw.get(sn, []), h[3]).get(h[4][0]) == h[4][1]]
             if sn in waiting and waiting[sn] not in cleared:
                 return "overlap", {"what": "handler or callback of an event ran while an earlier handler's wait was outstanding",
                                    "sn": sn, "entry": list(e), "cell": waiting[sn]}
@@ -398,33 +671,45 @@ def oracle(case, L, crash, left, nested):
                                         and not any(a[0] == "C" for a in progs[str(pid)]["acts"]))
                 if w:
                     waiting[sn] = cell
-        elif e[0] in ("clear", "iclear"):
+        elif e[0] in ("clear", "iclear", "dclear"):
             cleared.add(e[1])
     for sn, ev in posts.items():
         n = cbs.get(sn, 0)
-        if n == 0:
+        if n == 0 and stop_at is None:
             sub = "handlers-removed" if not calls.get(sn) else "after-handlers"
             return "callback-missing:" + sub, {"sn": sn, "event": ev, "calls": calls.get(sn), "left": left}
         if n > 1:
             return "callback-twice", {"sn": sn, "event": ev, "count": n}
         got = calls.get(sn, [])
         exp = started.get(sn, [])
+        if n == 0:       # cut short by stop(): what was called is a prefix
+            exp = exp[:len(got)]
         # coroutine handlers log no key at dispatch time: compare positions of the sync ones, and the length
         if len(got) != len(exp) or any(g is not None and g != x for g, x in zip(got, exp)):
             return "handler-order", {"sn": sn, "event": ev, "called": got, "registry": exp}
-    if left.get("tasks") or left.get("queue") or left.get("waits"):
+        if sn in futures and n == 1:
+            # the completion "callback" of post_queue_async is its future: resolved, with the kwargs as posted
+            res, posted = left.get("future_results", {}).get(str(sn)), left.get("future_posted", {}).get(str(sn))
+            nfut = sum(1 for e in L if e[0] == "fut" and e[1] == sn)
+            if res is None or nfut != 1:
+                return "future-unresolved", {"sn": sn, "event": ev, "result": res, "done_callbacks": nfut}
+            if res != {k: (v if k != "queue" else "<cell>") for k, v in posted.items()}:
+                return "future-result", {"sn": sn, "event": ev, "result": res, "posted": posted}
+    if stop_at is None and (left.get("tasks") or left.get("queue") or left.get("waits")):
         return "not-quiescent", {"left": left}
     if nested:
         return "nested-dispatch", {}
+    if any(e[0] == "adone" and e[2] == "raised" for e in L):
+        return "crash", {"error": "coroutine handler raised"}
     coro = [e for e in L if e[0] == "coro"]
     acalls = [e for e in L if e[0] == "acall"]
-    if len(coro) != len(acalls):
+    if len(coro) > len(acalls) or (len(coro) != len(acalls) and not cancels and stop_at is None):
         return "coroutine-count", {"started": len(coro), "dispatched": len(acalls)}
     return None
 
 
 def is_nontrivial(L):
-    waits = any(e[0] == "clear" for e in L)
+    waits = any(e[0] in ("clear", "adone") for e in L)
     inner = any(e[0] == "post" and e[3] for e in L)
     sync = any(e[0] == "sync" for e in L)
     mut = any(e[0] == "reg" and e[1] in ("H", "M", "E") for e in L)
@@ -434,36 +719,54 @@ def is_nontrivial(L):
 # ---------------------------------------------------------------------------------------------------------------------
 # model: replay the observed schedule
 # ---------------------------------------------------------------------------------------------------------------------
+def enc_kw(kw):
+    return ",".join("%d=%d" % (k, v) for k, v in kw) or "-"
+
+
 def enc_act(a):
     if a[0] == "W":
-        return "W"
-    if a[0] in ("C", "CP"):
-        return a[0]
+        return ["W"]
+    if a[0] in ("C", "CP", "STOP"):
+        return [a[0]]
     if a[0] == "Q":
-        return "Q %d %d %d" % (a[1], a[2], 1 if a[3] else 0)
+        return ["Q %d %d %d %s" % (a[1], a[2], 1 if a[3] else 0, enc_kw(a[4]))]
     if a[0] == "A":
-        return "A %d %d %d %d" % (a[1], a[2], a[3], a[4])
+        return ["A %d %d %d %d %s %s" % (a[1], a[2], a[3], a[4], enc_kw(a[5]), "-" if a[6] is None else "%d=%d" % tuple(a[6]))]
+    if a[0] == "WA":
+        return ["A %d %d 1 %d - -" % (ev, key, a[3]) for ev, key in a[2]]
     if a[0] == "R":
-        return "R %d %d" % (a[1], a[2])
+        return ["R %d %d" % (a[1], a[2])]
     if a[0] == "H":
-        return "H %d %d %d %d" % (a[1], a[2], a[3], a[4])
+        return ["H %d %d %d %d %s" % (a[1], a[2], a[3], a[4], enc_kw(a[5]))]
     if a[0] == "M":
-        return "M %d" % a[1]
+        return ["M %d" % a[1]]
     if a[0] == "E":
-        return "E %d %d" % (a[1], a[2])
+        return ["E %d %d" % (a[1], a[2])]
+    if a[0] in ("X", "WR", "WC"):
+        return ["%s %d" % (a[0], a[1])]
     raise InfraError("bad act %r" % (a,))
 
 
 def enc_acts(acts):
-    return " | ".join(enc_act(a) for a in acts)
+    return " | ".join(x for a in acts for x in enc_act(a))
+
+
+def show_kw(kw):
+    return "{" + ",".join("%d=%d" % (k, v) for k, v in kw) + "}"
 
 
 def show(e):
     if e[0] == "call":
-        return "c%d.%d.%d.%d" % (e[1], e[2], e[3], e[4])
+        return "c%d.%d.%d.%d" % (e[1], e[2], e[3], e[4]) + show_kw(e[5])
     if e[0] == "acall":
-        return "a%d.%d.%d" % (e[1], e[2], e[3])
-    return "b%d.%d" % (e[1], e[2])
+        return "a%d.%d.%d" % (e[1], e[2], e[3]) + show_kw(e[4])
+    if e[0] == "wres":
+        return "w%d" % e[1]
+    return "b%d.%d" % (e[1], e[2]) + show_kw(e[3])
+
+
+def sn_of(e):
+    return e[3] if e[0] == "call" else e[2]
 
 
 def schedule(L):
@@ -472,13 +775,20 @@ def schedule(L):
     i, n = 0, len(L)
     in_drain = False
     drain_cbs = []
+    passive = ("post", "reg", "iclear", "xcancel", "wcancel", "stop", "fut", "wfut", "coro")
     while i < n:
         e = L[i]
         if e[0] == "top":
             ops.append((("top " + enc_acts(e[1])).rstrip(), "ok"))
         elif e[0] == "drain-begin":
             in_drain, drain_cbs = True, []
-            ops.append(("dispatch", "ok"))
+        elif e[0] == "qd":
+            # the loop reaches a waiting queue event (a plain event's handler may run between two of them); the ones
+            # dispatched between two callbacks are part of the model's `callbacks` step
+            if not in_drain:
+                raise InfraError("queue event dispatched outside a drain: %r" % (e,))
+            if not drain_cbs:
+                ops.append(("dispatch1 %d" % e[1], "ok"))
         elif e[0] == "drain-end":
             in_drain = False
             ops.append(("callbacks", " ".join(drain_cbs) or "ok"))
@@ -486,17 +796,19 @@ def schedule(L):
             ops.append((("top " + enc_acts(e[1])).rstrip(), "ok"))
         elif e[0] == "clear":
             ops.append(("clear %d" % e[1], "ok"))
+        elif e[0] == "adone":
+            ops.append(("adone %d %s" % (e[1], e[2]), "ok"))
         elif e[0] in ("call", "acall", "cb"):
             if in_drain:
                 if e[0] != "cb":
                     raise InfraError("handler call inside a drain: %r" % (e,))
                 drain_cbs.append(show(e))
             else:
-                sn = e[3] if e[0] == "call" else e[2]
+                sn = sn_of(e)
                 grp = []
-                while i < n and L[i][0] in ("call", "acall", "cb", "post", "reg", "iclear") and \
-                        (L[i][0] in ("post", "reg", "iclear") or (L[i][3] if L[i][0] == "call" else L[i][2]) == sn):
-                    if L[i][0] in ("call", "acall", "cb"):
+                while i < n and (L[i][0] in passive or (L[i][0] == "wres" and L[i][2] == sn) or
+                                 (L[i][0] in ("call", "acall", "cb") and sn_of(L[i]) == sn)):
+                    if L[i][0] in ("call", "acall", "cb", "wres"):
                         grp.append(show(L[i]))
                     i += 1
                 ops.append(("resume %d" % sn, " ".join(grp)))
@@ -505,7 +817,7 @@ def schedule(L):
     return ops
 
 
-def run_model(model, case, L):
+def run_model(model, case, L, left):
     def ask(line):
         ans = model.ask(line)
         if ans == "bad-op":
@@ -513,14 +825,17 @@ def run_model(model, case, L):
         return ans
     ask("reset")
     for pid, p in case["progs"].items():
-        ask(("prog %s %s %s" % (pid, p["kind"], enc_acts(p["acts"]))).rstrip())
+        ask(("prog %s %s %s" % (pid, "a" if p["kind"] == "a" else "s", enc_acts(p["acts"]))).rstrip())
     ops = schedule(L)
     got = [ask(op) for op, _ in ops]
     got.append(ask("quiescent"))
-    return [op for op, _ in ops] + ["quiescent"], [exp for _, exp in ops] + ["tasks=0 waits=0 left=0"], got
+    return ([op for op, _ in ops] + ["quiescent"],
+            [exp for _, exp in ops] + ["tasks=%d waits=%d left=%d" % (left.get("tasks", 0), left.get("waits", 0), left.get("queue", 0))],
+            got)
 
 
 def check_case(case):
+    case = norm_case(case)
     L, crash, left, nested = run_real(case)
     return oracle(case, L, crash, left, nested), L
 
@@ -541,17 +856,26 @@ def restrict(case, units):
                         for i, st in enumerate(case["stimuli"])]}
 
 
+def well_formed(case):
+    """a shrunk case must not cancel a wait future it never created"""
+    made = {a[1] for a in case["boot"] if a[0] == "WA"}
+    return all(a[1] in made for st in case["stimuli"] for a in st["posts"] + st["sync"] if a[0] == "WC")
+
+
 def shrink(case, sig):
     def fails(units):
-        res, _ = check_case(restrict(case, units))
+        c = restrict(case, units)
+        if not well_formed(c):
+            return False
+        res, _ = check_case(c)
         return res is not None and res[0] == sig
     small = restrict(case, ddmin(units_of(case), fails, max_tests=120))
     small["stimuli"] = [st for st in small["stimuli"] if st["posts"]] or small["stimuli"][:1]
     used, todo = set(), [a for a in small["boot"]] + [a for st in small["stimuli"] for a in st["posts"]]
     while todo:
         a = todo.pop()
-        pid = a[4] if a[0] in ("A", "H") else (a[2] if a[0] in ("Q", "E") else (a[1] if a[0] == "M" else None))
-        if pid is not None and str(pid) not in used:
+        pid = a[4] if a[0] in ("A", "H") else (a[2] if a[0] in ("Q", "E") else (a[1] if a[0] == "M" else (a[3] if a[0] == "WA" else None)))
+        if pid is not None and pid != 0 and str(pid) not in used:
             used.add(str(pid))
             todo += small["progs"][str(pid)]["acts"]
     small["progs"] = {k: v for k, v in small["progs"].items() if k in used}
@@ -559,15 +883,32 @@ def shrink(case, sig):
 
 
 def one_queue_case(ctx, model, case, sample=True):
+    case = norm_case(case)
     L, crash, left, nested = run_real(case)
     ctx.evaluated(case, is_nontrivial(L), sample=sample)
     for e in L:
-        if e[0] in ("call", "acall", "cb", "clear", "iclear", "sync", "drain-begin"):
+        if e[0] in ("call", "acall", "cb", "clear", "iclear", "sync", "drain-begin", "stop", "wres", "wcancel", "fut"):
             ctx.count("q_" + e[0])
+        if e[0] == "adone":
+            ctx.count("q_adone_" + e[2])
+        if e[0] == "xcancel" and e[2]:
+            ctx.count("q_task_cancelled_by_program")
+        if e[0] == "wfut":
+            ctx.count("q_wait_future_" + e[2])
         if e[0] == "post":
             ctx.count("q_post_from_handler" if e[3] else "q_post_top")
+            if e[5]:
+                ctx.count("q_post_queue_async")
+            if e[4]:
+                ctx.count("q_post_with_kwargs")
         if e[0] == "reg" and e[1] in ("H", "M", "E"):
             ctx.count("q_mutator_" + e[1])
+        if e[0] == "reg" and e[1] == "A" and e[7] is not None:
+            ctx.count("q_conditional_handler")
+    if left.get("loop_errors"):
+        ctx.count("stop_raises_CancelledError_into_loop")
+    if any(e[0] == "stop" for e in L) and any(e[0] in ("call", "acall", "cb") for e in L[[e[0] for e in L].index("stop"):]):
+        ctx.count("ran_after_stop")
     res = oracle(case, L, crash, left, nested)
     if res is not None:
         small = shrink(case, res[0])
@@ -577,7 +918,7 @@ def one_queue_case(ctx, model, case, sample=True):
         ctx.fail(res[0], small, r2[1])
         return
     if model is not None:
-        ops, exp, got = run_model(model, case, L)
+        ops, exp, got = run_model(model, case, L, left)
         ctx.compare(dict(case, what="schedule replay", ops=ops), exp, got)
 
 
@@ -643,6 +984,217 @@ def mode_case(ctx, case):
 
 
 # ---------------------------------------------------------------------------------------------------------------------
+# the REAL queue_relay_player / queue_event_player (machine level and in a mode), oracle only
+# ---------------------------------------------------------------------------------------------------------------------
+PLAYER_CONFIG = """modes:
+  - m1
+queue_relay_player:
+  qe_machine:
+    post: machine_req
+    wait_for: machine_done
+queue_event_player:
+  trigger_machine:
+    queue_event: qe_inner
+    events_when_finished: inner_finished
+"""
+PLAYER_MODE = """mode:
+  start_events: start_m1
+  stop_events: stop_m1
+  game_mode: false
+  use_wait_queue: %s
+queue_relay_player:
+  qe_mode:
+    post: mode_req
+    wait_for: mode_done
+    pass_args: %s
+  qe_both:
+    post: mode_req
+    wait_for: mode_done
+queue_event_player:
+  trigger_mode:
+    queue_event: qe_mode
+    events_when_finished: mode_chain_finished
+"""
+PLAYER_OPS = ["Qmachine", "Qmode", "Qboth", "Qinner", "Dmachine", "Dmode", "start", "qstart", "stop", "Tmachine", "Tmode", "Dinner"]
+
+
+def gen_player_case(r):
+    ops = []
+    if r.random() < 0.8:
+        ops.append(r.choice(["start", "qstart"]))
+    for _ in range(r.randint(2, 9)):
+        x = r.random()
+        ops.append(r.choice(["Qmachine", "Qmode", "Qmode", "Qboth", "Qinner"]) if x < 0.45 else
+                   r.choice(["Dmachine", "Dmode", "Dmode", "Dinner"]) if x < 0.7 else
+                   r.choice(["Tmachine", "Tmode"]) if x < 0.82 else r.choice(["start", "qstart", "stop", "stop"]))
+        if r.random() < 0.5:
+            ops.append("gap%d" % r.choice([1, 1, 3]))
+    return {"kind": "player", "use_wait_queue": r.random() < 0.4, "pass_args": r.random() < 0.5, "ops": ops,
+            "inner_waits": r.random() < 0.6}
+
+
+def run_player(case):
+    """-> (log, crash, left).  log: post/h/cb per serial, play (a player took the wait of that serial's dispatch), clear"""
+    from harness.common.vmachine import VMachine, BootError
+    from harness.common import util
+    util.ensure_repo_mpf()
+    from mpf.core import events as evmod
+    from mpf.config_players.queue_relay_player import QueueRelayPlayer
+    from mpf.config_players.queue_event_player import QueueEventPlayer
+    try:
+        vm = VMachine(PLAYER_CONFIG, modes={"m1": PLAYER_MODE % ("true" if case["use_wait_queue"] else "false",
+                                                                 "true" if case["pass_args"] else "false")}).start()
+    except BootError as e:
+        return [], "boot: " + str(e)[:200], {}
+    L, cells = [], []
+    QE = evmod.QueuedEvent
+    o_clear, o_rplay, o_eplay = QE.clear, QueueRelayPlayer.play, QueueEventPlayer.play
+
+    def cellno(q):
+        for i, c in enumerate(cells):
+            if c is q:
+                return i
+        cells.append(q)
+        return len(cells) - 1
+
+    def clear(cell):
+        L.append(("clear", cellno(cell)))
+        return o_clear(cell)
+
+    def rplay(self, settings, context, calling_context, priority=0, **kwargs):
+        L.append(("play", kwargs.get("sn"), cellno(kwargs["queue"]) if "queue" in kwargs else None, settings["wait_for"]))
+        return o_rplay(self, settings, context, calling_context, priority, **kwargs)
+
+    def eplay(self, settings, context, calling_context, priority=0, **kwargs):
+        L.append(("eplay", settings["queue_event"]))
+        return o_eplay(self, settings, context, calling_context, priority, **kwargs)
+    QE.clear, QueueRelayPlayer.play, QueueEventPlayer.play = clear, rplay, eplay
+    crash = None
+    try:
+        vm.align()
+        ev, m = vm.machine.events, vm.machine
+        sn = [0]
+
+        def later(name):
+            def h(**kwargs):
+                L.append(("h", name, kwargs.get("sn")))
+            return h
+
+        def inner_wait(queue, **kwargs):
+            L.append(("h", "inner-wait", kwargs.get("sn")))
+            if case["inner_waits"]:
+                queue.wait()
+                L.append(("play", kwargs.get("sn"), cellno(queue), "timer"))
+                m.delay.add(ms=375, callback=queue.clear)
+        for q in ("qe_machine", "qe_mode", "qe_both", "start_m1"):
+            ev.add_handler(q, later("later:" + q), priority=-5)
+        ev.add_handler("qe_inner", inner_wait, priority=3)
+        ev.add_handler("qe_inner", later("later:qe_inner"), priority=-5)
+        for e in ("machine_req", "mode_req", "inner_finished", "mode_chain_finished"):
+            ev.add_handler(e, lambda e=e, **kwargs: L.append(("seen", e, kwargs.get("sn"), sorted(k for k in kwargs if k not in ("sn",)))))
+
+        def post_queue(name):
+            n = sn[0]
+            sn[0] += 1
+            L.append(("post", n, name))
+            ev.post_queue(name, lambda n=n, **kwargs: L.append(("cb", n)), sn=n)
+        for op in case["ops"] + ["gap8", "Dmachine", "Dmode", "gap8", "stop", "gap8", "Dmachine", "gap16"]:
+            if op.startswith("gap"):
+                vm.advance(GRID * int(op[3:]))
+            elif op.startswith("Q"):
+                post_queue("qe_" + op[1:])
+            elif op.startswith("D"):
+                ev.post(op[1:] + "_done")
+            elif op.startswith("T"):
+                L.append(("trigger", op[1:]))
+                ev.post("trigger_" + op[1:])
+            elif op == "start":
+                ev.post("start_m1")
+            elif op == "qstart":
+                post_queue("start_m1")
+            elif op == "stop":
+                ev.post("stop_m1")
+            else:
+                raise InfraError("bad player op %r" % op)
+    except InfraError:
+        raise
+    except Exception as e:
+        crash = "%s: %s" % (type(e).__name__, str(e)[:200])
+    finally:
+        QE.clear, QueueRelayPlayer.play, QueueEventPlayer.play = o_clear, o_rplay, o_eplay
+        left = {}
+        try:
+            left = {"tasks": len(vm.machine.events._queue_tasks), "waits": sum(1 for c in cells if c.waiter),
+                    "mode_active": bool(vm.machine.modes["m1"].active)}
+        finally:
+            vm.stop()
+    return L, crash, left
+
+
+def player_oracle(case, L, crash, left):
+    if crash is not None:
+        return "player:crash:" + crash.split(":")[0], {"error": crash}
+    posts = {e[1]: e[2] for e in L if e[0] == "post"}
+    held = {}                  # sn -> cells whose wait a player / the waiting handler registered and has not cleared
+    for e in L:
+        if e[0] == "play" and e[1] is not None and e[2] is not None:
+            held.setdefault(e[1], set()).add(e[2])
+        elif e[0] == "clear":
+            for cs in held.values():
+                cs.discard(e[1])
+        elif e[0] in ("h", "cb"):
+            n = e[2] if e[0] == "h" else e[1]
+            if held.get(n):
+                return "player:overlap", {"what": "a later handler / the callback ran while a queue player held the event",
+                                          "entry": list(e), "held": sorted(held[n])}
+    for n, name in posts.items():
+        c = sum(1 for e in L if e[0] == "cb" and e[1] == n)
+        if c != 1:
+            return "player:callback-missing" if c == 0 else "player:callback-twice", {"sn": n, "event": name, "count": c, "left": left}
+        lat = [i for i, e in enumerate(L) if e[0] == "h" and e[1] == "later:" + name and e[2] == n]
+        if len(lat) != 1 or lat[0] > [i for i, e in enumerate(L) if e[0] == "cb" and e[1] == n][0]:
+            return "player:handler-order", {"sn": n, "event": name, "later_handler_calls": len(lat)}
+    if left.get("tasks") or left.get("waits"):
+        return "player:not-quiescent", {"left": left}
+    return None
+
+
+def player_case(ctx, case):
+    L, crash, left = run_player(case)
+    ctx.evaluated(case, any(e[0] == "play" for e in L))
+    ctx.count("player_cases")
+    for e in L:
+        if e[0] in ("play", "eplay", "trigger"):
+            ctx.count("player_" + e[0] + (":" + str(e[3]) if e[0] == "play" else ""))
+    # not stated by the property, counted only: every queue_event_player run posts its events_when_finished once
+    fin = sum(1 for e in L if e[0] == "seen" and e[1] in ("inner_finished", "mode_chain_finished"))
+    if fin != sum(1 for e in L if e[0] == "eplay"):
+        ctx.count("player_events_when_finished_mismatch")
+    res = player_oracle(case, L, crash, left)
+    if res is not None:
+        def fails(ops):
+            c = dict(case, ops=list(ops))
+            r2 = player_oracle(c, *run_player(c))
+            return r2 is not None and r2[0] == res[0]
+        small = dict(case, ops=ddmin(list(case["ops"]), fails, max_tests=60))
+        r2 = player_oracle(small, *run_player(small))
+        if r2 is None or r2[0] != res[0]:
+            small, r2 = case, res
+        ctx.fail(res[0], small, r2[1])
+
+
+def player_corpus():
+    return [{"kind": "player", "use_wait_queue": u, "pass_args": True, "inner_waits": True, "ops": ops}
+            for u in (False, True)
+            for ops in (["start", "gap1", "Qmode", "gap1", "Dmode"],                        # held until wait_for arrives
+                        ["start", "gap1", "Qmode", "Qmode", "gap1", "Dmode"],               # the same event twice
+                        ["start", "gap1", "Qmode", "Qboth", "gap1", "stop"],                # the mode stops meanwhile
+                        ["start", "gap1", "Qboth", "gap1", "Dmode", "gap1", "Qmachine", "Tmachine", "gap1", "Dmachine"],
+                        ["qstart", "gap1", "Tmode", "gap1", "Dmode", "stop"],               # player chain inside a mode
+                        ["Qmachine", "qstart", "Qinner", "Dmachine", "stop", "Tmachine"])]
+
+
+# ---------------------------------------------------------------------------------------------------------------------
 # relay / boolean events (event-bus model behind the "bus " prefix of the C02 driver)
 # ---------------------------------------------------------------------------------------------------------------------
 class BusModel:
@@ -674,6 +1226,108 @@ def relay_bool_case(ctx, model, r):
         return
     if model is not None:
         ctx.compare(dict(case, kind="bus"), [c01.show_trace(tr) for tr in per], c01.run_model(BusModel(model), case))
+
+
+# ---------------------------------------------------------------------------------------------------------------------
+# post_relay_async / post_async futures (oracle only; the fold itself is the event-bus model's, compared above)
+# ---------------------------------------------------------------------------------------------------------------------
+def gen_future_case(r):
+    hs = []
+    for i in range(r.randint(0, 4)):
+        ret = r.choice(["none", "dict", "dict", "int", "false", "str", "list", "remove-next", "remove-self"])
+        hs.append({"prio": r.randint(-2, 2), "ret": ret, "upd": [[r.randint(1, 3), r.randint(0, 5)] for _ in range(r.randint(1, 2))],
+                   "kw": [[r.randint(1, 3), r.randint(6, 9)]] if r.random() < 0.3 else []})
+    return {"kind": "future", "api": r.choice(["relay", "relay", "plain"]), "handlers": hs,
+            "kw": [[k, r.randint(0, 5)] for k in r.sample([1, 2, 3], r.randint(0, 2))], "twice": r.random() < 0.3}
+
+
+def run_future(case):
+    """-> (results of the futures, crash, calls [(handler index, kwargs it saw)])"""
+    from harness.common.vmachine import VMachine, BootError
+    try:
+        vm = VMachine(CONFIG).start()
+    except BootError as e:
+        return [], "boot: " + str(e)[:200], []
+    calls, keys, crash, futs = [], {}, None, []
+    try:
+        vm.align()
+        ev = vm.machine.events
+
+        def mk(i, h):
+            def handler(**kwargs):
+                calls.append((i, {k: v for k, v in kwargs.items()}))
+                if h["ret"] == "remove-next" and i + 1 in keys:
+                    ev.remove_handler_by_key(keys[i + 1])
+                if h["ret"] == "remove-self":
+                    ev.remove_handler_by_key(keys[i])
+                return {"none": None, "dict": {kname(k): v for k, v in h["upd"]}, "int": 7, "false": False, "str": "x",
+                        "list": [1]}.get(h["ret"])
+            return handler
+        for i, h in enumerate(case["handlers"]):
+            keys[i] = ev.add_handler("fe", mk(i, h), h["prio"], **{kname(k): v for k, v in h["kw"]})
+        f = ev.post_relay_async if case["api"] == "relay" else ev.post_async
+        for _ in range(2 if case["twice"] else 1):
+            futs.append(f("fe", **{kname(k): v for k, v in case["kw"]}))
+        vm.advance(GRID)
+        vm.advance(GRID)
+    except Exception as e:
+        crash = "%s: %s" % (type(e).__name__, str(e)[:200])
+    finally:
+        res = [(dict(x.result()) if x.done() and not x.cancelled() else None) for x in futs]
+        vm.stop()
+    return res, crash, calls
+
+
+def future_oracle(case, res, crash, calls):
+    if crash is not None:
+        return "future:crash:" + crash.split(":")[0], {"error": crash}
+    order = sorted(range(len(case["handlers"])), key=lambda i: -case["handlers"][i]["prio"])      # stable: registration order
+    ci = 0
+    for n in range(2 if case["twice"] else 1):
+        removed_self = set() if n == 0 else removed_after_first
+        live = [i for i in order if i not in removed_self]
+        kw = {kname(k): v for k, v in case["kw"]}
+        last = None
+        for i in live:      # the snapshot: a peer removed meanwhile is still called
+            h = case["handlers"][i]
+            seen = dict(kw)
+            seen.update({kname(k): v for k, v in h["kw"]})
+            if ci >= len(calls) or calls[ci] != (i, seen):
+                return "future:relay-args", {"post": n, "handler": i, "expected_kwargs": seen, "got": calls[ci] if ci < len(calls) else None}
+            ci += 1
+            if case["api"] == "relay" and h["ret"] == "dict":
+                kw.update({kname(k): v for k, v in h["upd"]})
+            last = {"none": None, "dict": {kname(k): v for k, v in h["upd"]}, "int": 7, "false": False, "str": "x",
+                    "list": [1]}.get(h["ret"])
+        if n == 0:
+            removed_after_first = set()
+            for i in live:
+                r = case["handlers"][i]["ret"]
+                if r == "remove-self":
+                    removed_after_first.add(i)
+                if r == "remove-next" and i + 1 < len(case["handlers"]):
+                    removed_after_first.add(i + 1)
+        exp = dict(kw)
+        if last:
+            exp["ev_result"] = last
+        if res[n] is None:
+            return "future:unresolved", {"post": n, "expected": exp}
+        if res[n] != exp:
+            return "future:result", {"post": n, "expected": exp, "got": res[n]}
+    if ci != len(calls):
+        return "future:relay-args", {"extra_calls": calls[ci:]}
+    return None
+
+
+def future_case(ctx, case):
+    res, crash, calls = run_future(case)
+    ctx.evaluated(case, len(case["handlers"]) > 1)
+    ctx.count("future_cases_" + case["api"])
+    for h in case["handlers"]:
+        ctx.count("future_handler_returns_" + h["ret"])
+    r = future_oracle(case, res, crash, calls)
+    if r is not None:
+        ctx.fail(r[0], case, r[1])
 
 
 def corpus():
@@ -708,6 +1362,43 @@ def corpus():
                                              "9": {"kind": "s", "acts": [], "ticks": None}},
                   "boot": [["A", 1, 1, 4, 1], ["A", 1, 2, 3, 2], ["A", 1, 3, 2, 3], ["A", 1, 4, 1, 4]],
                   "stimuli": [{"posts": [["Q", 1, 9, 0]], "sync": [], "gap": 8}, {"posts": [["Q", 1, 9, 0]], "sync": [], "gap": 1}]})
+    S = lambda acts=(): {"kind": "s", "acts": list(acts), "ticks": None, "end": "ret"}
+    CO = lambda end, ticks: {"kind": "a", "acts": [], "ticks": ticks, "end": end}
+    # a coroutine handler between two sync handlers ends cancelled (awaited future cancelled / raises CancelledError /
+    # its task cancelled by a timer / by a plain event's handler): the wait is over, the rest runs, one callback
+    for end in ("gcancel", "raise", "tcancel", "gset"):
+        cases.append({"kind": "queue", "progs": {"1": S(), "2": CO(end, 2), "3": S(), "9": S()},
+                      "boot": [["A", 1, 1, 3, 1, [], None], ["A", 1, 2, 2, 2, [], None], ["A", 1, 3, 1, 3, [], None]],
+                      "stimuli": [{"posts": [["Q", 1, 9, 0, []]], "sync": [], "gap": 1}]})
+    cases.append({"kind": "queue", "progs": {"1": S(), "2": CO("gset", 9), "3": S([["X", 2]]), "9": S()},
+                  "boot": [["A", 1, 1, 3, 1, [], None], ["A", 1, 2, 2, 2, [], None], ["A", 2, 3, 1, 3, [], None]],
+                  "stimuli": [{"posts": [["Q", 1, 9, 0, []], ["Q", 1, 0, 0, []]], "sync": [], "gap": 1},
+                              {"posts": [["Q", 2, 9, 0, []]], "sync": [["X", 2]], "gap": 1}]})
+    # post_queue_async with kwargs, conditional handlers, handler kwargs overriding posted ones; handlers removed meanwhile
+    cases.append({"kind": "queue", "progs": {"1": S(), "2": S([["W", 3]]), "3": S()},
+                  "boot": [["A", 1, 1, 2, 1, [[1, 2]], [1, 2]], ["A", 1, 2, 1, 2, [[2, 0]], None], ["A", 1, 3, 0, 3, [], [1, 0]],
+                           ["A", 2, 4, 0, 1, [], None]],
+                  "stimuli": [{"posts": [["Q", 1, 0, 0, [[1, 1], [2, 2]]], ["Q", 1, 0, 0, [[1, 0]]], ["Q", 2, 0, 0, [[3, 1]]]],
+                               "sync": [["R", 2, 4]], "gap": 1}]})
+    # wait_for_any_event over two queue events: first post resolves it and removes both handlers; a cancelled wait future
+    # loses its handlers in a later loop iteration (999c3a7)
+    cases.append({"kind": "queue", "progs": {"1": S(), "9": S(), "20": {"kind": "w", "acts": [["R", 1, 5], ["R", 2, 6], ["WR", 1]], "ticks": None, "end": "ret"},
+                                             "21": {"kind": "w", "acts": [["R", 2, 7], ["WR", 2]], "ticks": None, "end": "ret"}},
+                  "boot": [["A", 1, 1, 0, 1, [], None], ["WA", 1, [[1, 5], [2, 6]], 20], ["WA", 2, [[2, 7]], 21]],
+                  "stimuli": [{"posts": [["Q", 2, 9, 0, [[1, 1]]], ["WC", 2]], "sync": [], "gap": 1},
+                              {"posts": [["WC", 1], ["Q", 1, 9, 0, []], ["Q", 2, 0, 0, []]], "sync": [], "gap": 1}]})
+    # a wait_for_any_event handler still in the snapshot of a sleeping queue event after another event of the list resolved
+    # the future (was: InvalidStateError killed the dispatcher, the callback never fired; fixed by 4202979)
+    cases.append({"kind": "queue", "progs": {"1": S([["W", 3]]), "9": S(),
+                                             "20": {"kind": "w", "acts": [["R", 2, 8], ["R", 1, 9], ["WR", 1]], "ticks": None, "end": "ret"}},
+                  "boot": [["A", 1, 1, 2, 1, [], None], ["WA", 1, [[2, 8], [1, 9]], 20]],
+                  "stimuli": [{"posts": [["Q", 1, 9, 0, []], ["Q", 2, 9, 0, []]], "sync": [], "gap": 1}]})
+    # EventManager.stop() with a queue event in flight and one not started yet
+    cases.append({"kind": "queue", "progs": {"1": S([["W", 4]]), "2": S(), "9": S()},
+                  "boot": [["A", 1, 1, 1, 1, [], None], ["A", 1, 2, 0, 2, [], None]],
+                  "stimuli": [{"posts": [["Q", 1, 9, 0, []]], "sync": [], "gap": 1},
+                              {"posts": [["Q", 1, 9, 0, []]], "sync": [["STOP"]], "gap": 1},
+                              {"posts": [["Q", 1, 9, 0, []]], "sync": [], "gap": 8}]})
     return cases
 
 
@@ -723,8 +1414,18 @@ def run(ctx):
             one_queue_case(ctx, model, case)
         for case in mode_corpus():
             mode_case(ctx, case)
+        for case in player_corpus():
+            player_case(ctx, case)
         for i in range(ctx.n(450, 6000)):
             one_queue_case(ctx, model, Gen(ctx.rng("queue", i)).case())
+            if len(ctx.failures) >= 3:
+                break
+        for i in range(ctx.n(120, 1500)):
+            player_case(ctx, gen_player_case(ctx.rng("player", i)))
+            if len(ctx.failures) >= 3:
+                break
+        for i in range(ctx.n(100, 1000)):
+            future_case(ctx, gen_future_case(ctx.rng("future", i)))
             if len(ctx.failures) >= 3:
                 break
         for i in range(ctx.n(250, 3000)):
@@ -740,6 +1441,14 @@ def replay(ctx, rep):
     case = rep["case"]
     if case.get("kind") == "mode":
         mode_case(ctx, case)
+    elif case.get("kind") == "player":
+        res = player_oracle(case, *run_player(case))
+        if res is not None:
+            ctx.fail(res[0], case, res[1])
+    elif case.get("kind") == "future":
+        res = future_oracle(case, *run_future(case))
+        if res is not None:
+            ctx.fail(res[0], case, res[1])
     elif case.get("kind") == "bus":
         res, _ = c01.check_case(case)
         if res is not None:
